@@ -54,6 +54,24 @@ pub fn line_kinds() -> Vec<(&'static [u8], &'static str)> {
     ]
 }
 
+/// product alphabet prefix x body x suffix used for the outputs of up to PRODUCT_LINES lines:
+/// one representative per syntactic role a line part can play, combined freely
+pub const PREFIXES: [&str; 8] = ["", "$ ", "> ", "[", "# ", "  ", "`", "\\"];
+pub const BODIES: [&[u8]; 9] = [b"x", b"", b"a\\tb", b"a\\", b"\x1b", "\u{e9}".as_bytes(), b"```", b"1]", b"\\x41"];
+pub const SUFFIXES: [&str; 8] = ["", " (glob)", " (?)", " ()", " (escaped)", " (no-eol)", " ", " (equal)"];
+
+pub fn product_line(i: usize) -> Vec<u8> {
+    let (p, rest) = (i % PREFIXES.len(), i / PREFIXES.len());
+    let (b, sfx) = (rest % BODIES.len(), rest / BODIES.len());
+    let mut v = PREFIXES[p].as_bytes().to_vec();
+    v.extend_from_slice(BODIES[b]);
+    v.extend_from_slice(SUFFIXES[sfx].as_bytes());
+    v
+}
+pub fn product_count() -> usize {
+    PREFIXES.len() * BODIES.len() * SUFFIXES.len()
+}
+
 pub const COMMANDS: [&str; 4] = ["cmd", "cmd \\\n  more", "cat <<EOF\nfoo\nEOF", "cat <<EOF\n\nEOF"];
 pub const EXITS: [i32; 4] = [0, 1, 80, 255];
 
@@ -75,6 +93,9 @@ pub struct GenCase {
     pub path: Path,
     /// markdown only: validate against stderr (the output is put on stderr)
     pub stderr: bool,
+    /// when set: the output lines are these indices into the product alphabet (and `lines` is empty)
+    #[serde(default)]
+    pub product: Vec<usize>,
 }
 
 thread_local! {
@@ -129,6 +150,12 @@ impl GenCase {
                 out.push(b'\n');
             }
         }
+        for (i, l) in self.product.iter().enumerate() {
+            out.extend_from_slice(&product_line(*l));
+            if i + 1 < self.product.len() || self.final_newline {
+                out.push(b'\n');
+            }
+        }
         out
     }
 }
@@ -165,9 +192,9 @@ impl Engine for VcGen {
                         for cram in [false, true] {
                             for ascii in [false, true] {
                                 for path in [Path::Create, Path::Update, Path::Convert] {
-                                    v.push(GenCase { lines: lines.clone(), final_newline, exit, command, cram, ascii, path: path.clone(), stderr: false });
+                                    v.push(GenCase { lines: lines.clone(), final_newline, exit, command, cram, ascii, path: path.clone(), stderr: false, product: vec![] });
                                     if !cram && path == Path::Update && !full {
-                                        v.push(GenCase { lines: lines.clone(), final_newline, exit, command, cram, ascii, path: path.clone(), stderr: true });
+                                        v.push(GenCase { lines: lines.clone(), final_newline, exit, command, cram, ascii, path: path.clone(), stderr: true, product: vec![] });
                                     }
                                 }
                             }
@@ -177,14 +204,41 @@ impl Engine for VcGen {
             }
             v.into_iter()
         });
-        Box::new(it)
+        // product alphabet: every single line (and, thorough, every pair with a plain second/first line)
+        let np = product_count();
+        let thorough = tier == Tier::Thorough;
+        let prod = (0..np).flat_map(move |a| {
+            let mut outs: Vec<Vec<usize>> = vec![vec![a]];
+            // position matters (first line / later line): put a plain line (index of "x": prefix 0, body 0, suffix 0 = 0) before and after
+            outs.push(vec![0, a]);
+            if thorough {
+                outs.push(vec![a, 0]);
+                outs.push(vec![0, a, 0]);
+            }
+            outs.into_iter().flat_map(move |product| {
+                let mut v = vec![];
+                for final_newline in [true, false] {
+                    for exit in [0usize, 1] {
+                        for cram in [false, true] {
+                            for ascii in [false, true] {
+                                for path in [Path::Create, Path::Update, Path::Convert] {
+                                    v.push(GenCase { lines: vec![], final_newline, exit, command: 0, cram, ascii, path, stderr: false, product: product.clone() });
+                                }
+                            }
+                        }
+                    }
+                }
+                v.into_iter()
+            })
+        });
+        Box::new(it.chain(prod))
     }
     fn bound(&self, tier: Tier) -> String {
         format!(
             "all outputs of <= {} lines over {} line kinds x final newline present/absent x exit codes {EXITS:?} x 4 commands (single line, backslash-continued, two here-docs) x {{markdown, cram}} x {{unicode, ascii}} escaper x {{create, update (stale expectation), convert (other format)}}; markdown update additionally with output_stream: stderr{}",
             if tier == Tier::Quick { 2 } else { 3 },
             line_kinds().len(),
-            if tier == Tier::Quick { "" } else { "; at 3 lines restricted to exit codes 0/1 and the first two commands" }
+            if tier == Tier::Quick { "; plus every line of the product alphabet (8 prefixes x 9 bodies x 8 suffixes = 576 lines) alone and after a plain line x final newline x exit 0/1 x formats x escapers x paths" } else { "; plus every line of the 576-line product alphabet alone, after, before and between plain lines; at 3 lines restricted to exit codes 0/1 and the first two commands" }
         )
     }
     fn rule(&self, _p: &str) -> String {
@@ -216,13 +270,35 @@ impl Engine for VcGen {
         if !case.final_newline {
             tags.push("no-final-newline".into());
         }
+        for l in &case.product {
+            let (p, rest) = (l % PREFIXES.len(), l / PREFIXES.len());
+            let (b, sfx) = (rest % BODIES.len(), rest / BODIES.len());
+            tags.push(format!("prefix:{}", PREFIXES[p]));
+            tags.push(format!("body:{}", String::from_utf8_lossy(BODIES[b])));
+            tags.push(format!("suffix:{}", SUFFIXES[sfx]));
+        }
         if let Some(first) = case.lines.first() {
             tags.push(format!("first-line-{}", kinds[*first].1));
+        }
+        // independent of scrut's escaper: is some line rendered as escaped expectation although it ends in ` (no-eol)`?
+        {
+            thread_local! { static C: regex::Regex = regex::Regex::new(r"\p{C}").unwrap(); }
+            let all: Vec<&[u8]> = bytes.split(|b| *b == b'\n').collect();
+            for (i, l) in all.iter().enumerate() {
+                let unprintable = match (case.ascii, std::str::from_utf8(l)) {
+                    (true, _) | (_, Err(_)) => l.iter().any(|b| !(0x20..0x7f).contains(b)),
+                    (false, Ok(s)) => C.with(|c| c.is_match(s)),
+                };
+                let escaped = unprintable || l.starts_with(b"$ ") || (i == 0 && l.starts_with(b"> "));
+                if escaped && l.ends_with(b" (no-eol)") {
+                    tags.push("escaped-line-ending-in-no-eol-marker".into());
+                }
+            }
         }
         tags.push(if case.cram { "format-cram".into() } else { "format-markdown".into() });
         tags.sort();
         tags.dedup();
-        let nontrivial = case.lines.iter().any(|l| kinds[*l].1 != "plain") || !case.final_newline || exit != 0;
+        let nontrivial = case.lines.iter().any(|l| kinds[*l].1 != "plain") || case.product.iter().any(|l| *l != 0) || !case.final_newline || exit != 0;
         if nontrivial {
             res.nontrivial.push(("C09", hash64(case)));
         }
@@ -301,6 +377,6 @@ impl Engine for VcGen {
         res
     }
     fn size(&self, case: &GenCase) -> usize {
-        case.lines.len() * 1000 + case.exit * 10 + case.command * 100 + (!case.final_newline) as usize * 50 + case.cram as usize + case.ascii as usize + case.stderr as usize * 2
+        (case.lines.len() + case.product.len()) * 1000 + case.product.iter().sum::<usize>() + case.exit * 10 + case.command * 100 + (!case.final_newline) as usize * 50 + case.cram as usize + case.ascii as usize + case.stderr as usize * 2
     }
 }
